@@ -1,8 +1,40 @@
 (* C19 -- process_unicode applies the requested transforms to every line, each char once.
-   Only statements; proofs are in Unicode/FlattenProofs.v. *)
+   Only statements; proofs are in Unicode/FlattenProofs.v.  ICU's toLower, NFKC and
+   u_isspace are arbitrary functions (premise-free Section variables: the theorems
+   hold for whatever ICU computes); the rule tables, the per-language composition,
+   the index advance in Flatten::Apply and the printed buffer are regenerated from
+   the source (Gen/Src_flatten.v). *)
 From PP Require Import Unicode.FlattenDefs Unicode.MainDefs Unicode.FlattenProofs.
 Local Open Scope Z_scope.
 
-Theorem C19_flatten_empty : forall isspace d, flatten_apply isspace d [] = Some [].
-Proof. exact flatten_apply_empty. Qed.
-Print Assumptions C19_flatten_empty.
+(* Flatten::Apply terminates on every UTF-16 string (the model's fuel error is unreachable) *)
+Theorem C19_flatten_total : forall isspace d u, exists r, flatten_apply isspace d u = Some r.
+Proof. exact flatten_apply_total. Qed.
+Print Assumptions C19_flatten_total.
+
+(* For all 8 flag sets, every supported language, every sequence of valid UTF-8
+   lines and hence every line index: the tool prints, line for line, the line with
+   exactly the requested transforms applied in the order lower, flatten, normalize
+   ([pipe]); with no flag the text passes through the UTF-8 <-> UTF-16 conversion only.
+   The two ping-pong buffers and cur/tmp are as coded; the statement holds from any
+   state they are left in by earlier lines (process_line_spec). *)
+Theorem C19_pipeline_spec : forall lower nfkc isspace lang fl d ls us,
+  flatten_for lang = Some d ->
+  Forall2 (fun l u => from_utf8 l = Some u) ls us ->
+  no_delim 10 (concat ls) = true ->
+  process_unicode lower nfkc isspace lang fl (unrecords 10 ls)
+  = POk (unrecords 10 (map (fun u => to_utf8 (pipe lower nfkc isspace d fl u)) us)).
+Proof. exact pipeline_spec_proof. Qed.
+Print Assumptions C19_pipeline_spec.
+
+(* non-vacuity: three lines, only --flatten (the flag set for which every other line
+   used to come out untransformed), English: all three lines are flattened *)
+Example C19_nonvacuous_pipeline :
+  let isspace := fun c => c =? 32 in
+  let ls := [[226; 128; 156; 120]; [226; 128; 156; 121]; [97; 240; 159; 152; 128; 98]] in
+  no_delim 10 (concat ls) = true /\
+  (exists d, flatten_for [101; 110] = Some d) /\
+  process_unicode (fun u => u) (fun u => u) isspace [101; 110]
+     {| f_lower := false; f_flatten := true; f_normalize := false |} (unrecords 10 ls)
+  = POk [34; 120; 10; 34; 121; 10; 97; 240; 159; 152; 128; 98; 10].
+Proof. vm_compute. repeat split. eexists; reflexivity. Qed.
